@@ -13,18 +13,26 @@ Proof.
   apply IH. blia.
 Qed.
 
-Lemma parse_filters_np n : forall data version v1 offset, np (parse_filters n data version v1 offset).
+(* both variants of the version 2 filter name switch *)
+Lemma parse_filters_gen_np rep n : forall data version v1 offset, np (parse_filters_gen rep n data version v1 offset).
 Proof.
-  induction n as [|n IH]; intros; cbn [parse_filters]; np_go.
+  induction n as [|n IH]; intros; cbn [parse_filters_gen]; np_go.
   all: try (apply read_cd_np; rewrite N2Nat.id; np_side).
-  all: match goal with
+  all: repeat match goal with
        | H : context [if ?c then _ else _] |- np (slice _ _ _) => destruct c eqn:?
        end; apply slice_np; np_side.
 Qed.
+#[export] Hint Resolve parse_filters_gen_np : np.
+
+Lemma parse_filters_np n : forall data version v1 offset, np (parse_filters n data version v1 offset).
+Proof. intros. apply parse_filters_gen_np. Qed.
 #[export] Hint Resolve parse_filters_np : np.
 
+Lemma dec_pipeline_gen_np rep data : np (dec_pipeline_gen rep data).
+Proof. unfold dec_pipeline_gen. np_go. Qed.
+
 Lemma dec_pipeline_np data : np (dec_pipeline data).
-Proof. unfold dec_pipeline. np_go. Qed.
+Proof. apply dec_pipeline_gen_np. Qed.
 
 (* ------------------------------------------------------------------ datatype *)
 
@@ -77,8 +85,12 @@ Proof. unfold dec_compound. np_go. Qed.
 
 (* ------------------------------------------------------------------ attribute message *)
 
+(* both variants of the version 2 padding switch *)
+Lemma dec_attribute_gen_np rep bigendian data : np (dec_attribute_gen rep bigendian data).
+Proof. unfold dec_attribute_gen, rd16. np_go. Qed.
+
 Lemma dec_attribute_np bigendian data : np (dec_attribute bigendian data).
-Proof. unfold dec_attribute, rd16. np_go. Qed.
+Proof. apply dec_attribute_gen_np. Qed.
 
 (* ------------------------------------------------------------------ statements *)
 
